@@ -60,6 +60,8 @@ Inductive reqbody :=
 Record docreq := mkReq {
   rq_sent : list sent;
   rq_omitted : option str;        (* the required query parameter left out, if any *)
+  rq_illtyped : option str;       (* the parameter given a text that is NOT valid for its
+                                     documented schema, if any *)
   rq_body : reqbody
 }.
 
@@ -186,12 +188,16 @@ Definition is_sent (req : docreq) (p : dparam) : bool :=
 
 (* a sent parameter is a documented one and carries a value valid for its
    documented schema, written as a client writes primitives *)
-Definition sent_ok (comps : list (str * oschema)) (ps : list dparam) (s : sent) : bool :=
+Definition sent_ok (comps : list (str * oschema)) (ps : list dparam) (ill : option str) (s : sent) : bool :=
   match find_param ps (se_name s) (se_loc s) with
   | None => false
   | Some p =>
       negb (is_null (se_value s))
-      && valid comps (dp_schema p) (se_value s)
+      (* the ill-typed one is a string that its documented schema refuses *)
+      && (if option_eqb str_eqb ill (Some (se_name s))
+          then negb (valid comps (dp_schema p) (se_value s))
+               && match se_value s with JStr _ => true | _ => false end
+          else valid comps (dp_schema p) (se_value s))
       && match wire_of_json (se_value s) with
          | Some w => str_eqb w (se_wire s)
          | None => false
@@ -220,7 +226,13 @@ Definition loc_names (l : ploc) (ss : list sent) : list str :=
   map se_name (filter (fun s => ploc_eqb (se_loc s) l) ss).
 
 Definition req_wf (comps : list (str * oschema)) (op : docop) (req : docreq) : bool :=
-  forallb (sent_ok comps (do_params op)) (rq_sent req)
+  forallb (sent_ok comps (do_params op) (rq_illtyped req)) (rq_sent req)
+  (* an ill-typed value only in a request that otherwise has everything *)
+  && match rq_illtyped req, rq_omitted req with
+     | Some n, None => existsb (fun s => str_eqb (se_name s) n) (rq_sent req)
+     | Some _, Some _ => false
+     | None, _ => true
+     end
   && Extract.names_distinct (loc_names LPath (rq_sent req))
   && Extract.names_distinct (loc_names LQuery (rq_sent req))
   (* every path parameter is filled in *)
@@ -289,6 +301,15 @@ Definition judge_req (pp pq : option pspec) (op : docop)
   let refused := (ob_entered o =? 0) && is_4xx (ob_status o) in
   let resp := response_ok comps op o in
   let model_acc := model_accepts pp pq (rq_sent req) in
+  match rq_illtyped req with
+  | Some _ =>
+      (* not a request the document describes: nothing is promised about its
+         acceptance, but clause 3 holds of whatever error the framework
+         answers with (and clause 2 if it is accepted after all); the model
+         refuses it with a 400 before the handler *)
+      if resp then (if refused && negb model_acc then V_AGREE else V_DIVERGE)
+      else V_VIOLATION
+  | None =>
   if all_required_sent op req then
     (* clause 1a: a request with every required parameter and a valid body is accepted;
        clauses 2 and 3: whatever comes back is what the document lists *)
@@ -300,7 +321,8 @@ Definition judge_req (pp pq : option pspec) (op : docop)
     (* clause 1b: a required parameter is missing: 4xx, handler not entered;
        clause 3: the error body is the documented one *)
     if refused && resp then (if model_acc then V_DIVERGE else V_AGREE)
-    else V_VIOLATION.
+    else V_VIOLATION
+  end.
 
 (* ------------------------------------------------------------ the document against the model *)
 
